@@ -141,7 +141,19 @@ func (fr *frame) native(t types.Type, v value, depth int) interface{} {
 		if x == nil {
 			return fmtStringer("<nil>")
 		}
-		return fmtStringer("0xc000010000")
+		// an address: every distinct cell prints differently (code whose
+		// output contains addresses then differs between two equal objects,
+		// which is what C19 looks for); the numbering is per path
+		p := fr.i.path
+		if p.addrIDs == nil {
+			p.addrIDs = map[*value]int{}
+		}
+		id, ok := p.addrIDs[x]
+		if !ok {
+			id = len(p.addrIDs) + 1
+			p.addrIDs[x] = id
+		}
+		return fmtStringer(fmt.Sprintf("0xc%09x", 0x10000+id*0x20))
 	case *omap:
 		return fmtStringer(fmt.Sprintf("map[%d entries]", x.len()))
 	case rtype:
